@@ -3,6 +3,7 @@ import Proofs.C11.Roles
 import Proofs.C11.Perm
 import Proofs.C11.Modifiable
 import Proofs.C11.Example
+import Proofs.C11.Nest
 /-!
 # C11 — PSBT roles are lossless, order-independent, never alias their arguments
 
@@ -219,31 +220,53 @@ theorem combine_perm_modifiable {ps ps' : List Psbt} {r r' : Psbt} (hp : ps.Perm
       congr 1
       exact (modifiable_perm (hp.map _)).symm
 
-/-- T2 re-bracketing — what IS proved: IF the inner combine, the outer combine and the flat combine are
-    all three accepted, the nested result equals the flat one slot for slot (exactly, no proviso on the
-    operands).  Together with `combine_perm` (every order of the FLAT operand list is accepted or refused
-    alike, with one result) this is the whole of the order/grouping statement.
-    What is NOT proved, and is FALSE of the model and of btclib alike: that acceptance does not depend on
-    the grouping.  Since `combine` re-checks the identifier of what it built, a part of the operands can
-    make every requiring input carry a height (BIP370 then picks the height) although the whole never
-    does: `combine [a,b,c]`, `a(bc)`, `(ac)b` are accepted and `combine [combine [a,b], c]` is refused
-    half way.  Counterexample on the model: the `example` after this theorem; on the real code: known
-    finding `combine.locktime-partition.grouping` (harness oracle `finding.locktime-grouping`).  `combine`
-    is therefore commutative and idempotent on compatible operands, and associative only where every
-    intermediate combine is accepted. -/
-theorem combine_bracket {p0 r s s' : Psbt} {rest l2 : List Psbt}
-    (h1 : combine (p0 :: rest) = .ok r) (h2 : combine (r :: l2) = .ok s)
-    (h3 : combine (p0 :: (rest ++ l2)) = .ok s') (l : Loc) (hl : ruleAt l ≠ some .modifiable) :
-    s.slot l = s'.slot l := by
-  obtain ⟨_, _, hM⟩ := tables_ok
-  have hMod : ruleAt modLoc = some .modifiable := by simpa [modifiableIsAssigned] using hM
-  have hne : l ≠ modLoc := by intro c; rw [c] at hl; exact hl hMod
-  rw [combine_ok_fold h1] at h2
-  rw [combine_ok_fold h2, combine_ok_fold h3]
-  simp only [foldl_step_slot, baseOf_slot hne, List.foldl_append]
+/-- T2 re-bracketing, THE EQUATION (no proviso on the operands): once the inner combine of a leading group
+    is accepted, combining its result with the remaining operands IS combining everything at once — accepted
+    together or refused together (always with a BTClibValueError), and when accepted the same psbt at EVERY
+    location, tx_modifiable included (`_combined_tx_modifiable` of a nesting is that of the flat list:
+    `combinedModifiable_nest`).  So the outer acceptance `h2` of the former statement is derivable from the
+    inner one and the flat one, and conversely.
+    What is NOT true, of the model and of btclib alike: that the INNER combine is accepted whenever the flat one
+    is.  Since `combine` re-checks the identifier of what it built, a part of the operands can make every
+    requiring input carry a height (BIP370 then picks the height) although the whole never does:
+    `combine [a,b,c]` is accepted and `combine [a,b]` is refused.  Counterexample on the model: the `example`
+    below, on operands proved `Compatible` (`lock_compatible`); on the real code: known finding
+    `combine.locktime-partition.grouping` (harness oracle `finding.locktime-grouping`).
+    Scope: the inner group is a PREFIX of the operand list (with `combine_perm`, any sub-multiset of compatible
+    operands up to what `serialize` reads); a group nested in a later position is compared by the
+    correspondence stream (all bracketings, k ≤ 4) only. -/
+theorem combine_bracket {p0 r : Psbt} {rest : List Psbt} (h1 : combine (p0 :: rest) = .ok r) (l2 : List Psbt) :
+    combine (r :: l2) = combine (p0 :: (rest ++ l2)) :=
+  combine_nested_eq tables_ok.2.2 rfl h1 l2
 
-/-- associativity of ACCEPTANCE is false: three psbts of one version-2 transaction (same identifier, lock
-    time T, no conflicting field) — all at once accepted, `b,c` first accepted, `a,b` first refused. -/
+/-- T2 re-bracketing, the characterisation of acceptance: where the flat combine is accepted, the nested one is
+    accepted — and then returns the flat result — if and only if the inner one is; i.e. the ONLY way a grouping
+    can fail on operands the flat combine accepts is the refusal of an inner combine (the open finding). -/
+theorem combine_bracket_accepted_iff {p0 s' : Psbt} {rest l2 : List Psbt}
+    (h3 : combine (p0 :: (rest ++ l2)) = .ok s') :
+    (∃ r, combine (p0 :: rest) = .ok r ∧ combine (r :: l2) = .ok s') ↔ (∃ r, combine (p0 :: rest) = .ok r) := by
+  constructor
+  · rintro ⟨r, h1, _⟩; exact ⟨r, h1⟩
+  · rintro ⟨r, h1⟩; exact ⟨r, h1, by rw [combine_bracket h1 l2, h3]⟩
+
+/-- the slot-for-slot form of the former statement, now a corollary (and without its proviso on `l`) -/
+example {p0 r s s' : Psbt} {rest l2 : List Psbt}
+    (h1 : combine (p0 :: rest) = .ok r) (h2 : combine (r :: l2) = .ok s)
+    (h3 : combine (p0 :: (rest ++ l2)) = .ok s') (l : Loc) : s.slot l = s'.slot l := by
+  rw [combine_bracket h1 l2, h3] at h2; cases h2; rfl
+
+-- non-vacuity: an accepted inner combine, and the equation on it
+example : (combine [exA, exB]).toBool = true := by decide
+example (r : Psbt) (h : combine [exA, exB] = .ok r) : combine [r, exA] = combine [exA, exB, exA] :=
+  combine_bracket h [exA]
+
+/-- the three psbts of the counterexample do not conflict: `Compatible` in the sense of T1/T2 (well-kinded
+    operands, no two different values at one key) -/
+example : Compatible [lkA, lkB, lkC] := lock_compatible
+
+/-- acceptance of an INNER combine does not follow from acceptance of the flat one: three compatible psbts of
+    one version-2 transaction (same identifier, lock time T) — all at once accepted, `b,c` first accepted,
+    `a,b` first refused. -/
 example : (identOf 2 lkA = identOf 2 lkB ∧ identOf 2 lkB = identOf 2 lkC) ∧
     (combine [lkA, lkB, lkC]).toBool = true ∧ (combine [lkB, lkC]).toBool = true ∧
     (combine [lkA, lkB]).toBool = false := by decide
